@@ -127,6 +127,8 @@ def node_body(n, codes, is_root):
                 items += value_code(c, is_root)
             items += [("push", c["addr"]), "GAS" if False else ("push", 0xFFFF), c["kind"]]
             items += [("push", flag_off), "MSTORE"]
+            if n["depth"] % 2 == 1:
+                items += ["PUSH0", "SLOAD", "POP", "PUSH0", "TLOAD", "POP"]  # the return-data buffer survives storage reads of the caller
             items += ["RETURNDATASIZE", ("push", rds_off), "MSTORE"]
         off += 32 * (2 + w)
     # own observations (after children)
